@@ -12,7 +12,7 @@
 From Coq Require Import NArith List Bool.
 From AV Require Import Generated.Table Spec.Io Spec.Strip Model.Base Model.Utf8parse Model.Parser Model.Strip
   Model.Stream Proofs.TableFacts Proofs.StripMachine Proofs.StripSim Proofs.StreamIo Proofs.Stream
-  Generated.StreamFn Proofs.StreamGen.
+  Generated.FmtFn Proofs.FmtGen Generated.StreamFn Proofs.StreamGen.
 Import ListNotations.
 Local Open Scope N_scope.
 
@@ -160,8 +160,8 @@ Proof. vm_compute. repeat split; repeat eexists. Qed.
    `impl io::Write for StripStream` methods that delegate to them, regenerated from the
    working tree on every run.  The translated code computes exactly what the hand model -- the
    subject of every theorem above -- computes (conv_n / conv_u only reorder the result triple and
-   rename io::Result to sres).  (fmt::Adapter and write_vectored are hand-modelled, token-pinned;
-   `raw`, `strip_next` and sub-slices of the buffer are vocabulary: see tools/gen_fn_stream.py.) *)
+   rename io::Result to sres).  (`raw`, `strip_next` and sub-slices of the buffer are vocabulary: see
+   tools/gen_fn_stream.py; write_vectored and fmt::Adapter are translated too, see the end of this file.) *)
 Theorem c06_translated_offset_to_is_piece_offset :
   forall total p, g_offset_to total p = Some (p_off p).
 Proof. exact g_offset_to_eq. Qed.
@@ -184,3 +184,22 @@ Theorem c06_translated_stream_is_model :
   match g_ss_run x ops with Some (x1, rs) => Some (ss_state x1, ss_raw x1, rs) | None => None end
   = run_ops b MStrip (ss_state x) (ss_raw x) ops.
 Proof. exact translated_stream_is_model. Qed.
+
+(* write_vectored, TRANSLATED (`bufs.iter().find(|b| !b.is_empty()).map(|b| &**b).unwrap_or(&[][..])`, then `self.write`):
+   the translated `write` on the hand model's first_nonempty (c06_write_vectored_is_write_of_first_nonempty) *)
+Theorem c06_translated_write_vectored_is_first_nonempty :
+  forall x bufs, g_ss_write_vectored x bufs = g_ss_write x (first_nonempty bufs).
+Proof. exact g_ss_write_vectored_first. Qed.
+
+(* crates/anstream/src/fmt.rs, TRANSLATED (Generated/FmtFn.v: Adapter::new, Adapter::write_fmt, fmt::Write::write_str;
+   `core::fmt::write` = one write_str per fragment, stopping at the first error: Model/Stream.v core_fmt_write):
+   `Adapter::new(closure).write_fmt(args)` calls the closure once per fragment, in order, each time on the state the
+   previous call left; the first io::Error stops it and is the answer (the error slot), otherwise Ok(()); the captured
+   variables end as the hand model fmt_adapter_write_fmt leaves them.  For EVERY closure [f] and captured state [st] *)
+Theorem c06_translated_adapter_is_model :
+  forall (S : Type) (f : list N -> S -> option (S * (unit + ekind))) st frags,
+  match g_adapter_write_fmt S (g_adapter_new S (f, st)) frags with
+  | Some (ad, r) => Some (snd (fa_writer S ad), r)
+  | None => None
+  end = fmt_adapter_write_fmt f st frags.
+Proof. exact g_adapter_write_fmt_eq. Qed.
